@@ -396,6 +396,23 @@ class Interp(object):
                   self.obj.init_from_channel_matrix, self.passed, *args)
         self._after_init(lay, raw)
 
+    def _op_rejected_init(self, op):
+        """An init_from_channel_matrix call that the library must refuse
+        (matrix shape does not match the antenna counts): ValueError, and the
+        object is exactly what it was before."""
+        lay = _norm_layout(op["layout"], self.ext)
+        args = self._layout_args(lay, False, False)
+        r, c = sum(lay["Nr"]), sum(lay["Nt"]) + sum(lay["NtE"])
+        bad = np.ones((r + 1, c + 2), dtype=complex)
+        try:
+            self.obj.init_from_channel_matrix(bad, *args)
+        except ValueError:
+            self.ctx.label("rejected_init")
+            return
+        raise Violation("bad_init_accepted", "init_from_channel_matrix took "
+                        "a %r matrix for antenna counts %r" %
+                        (bad.shape, lay), self.tags(op="rejected_init"))
+
     def _op_poke(self, op):
         """The caller writes into ITS OWN array after handing it to
         init_from_channel_matrix.  The library keeps the views in sync by
@@ -438,6 +455,7 @@ class Interp(object):
                 self.ctx.label("known_stale_avoided")
                 self._init_from(self.lay, self.raw)
             K, E = self.K, self.E
+            user_int = False
             if kind == "same":
                 new = np.array(self.PL, dtype=float, copy=True)
             elif kind == "ones":
@@ -445,12 +463,21 @@ class Interp(object):
             else:
                 rs = np.random.RandomState(int(op["seed"]))
                 new = 10.0 ** rs.uniform(-2.0, 1.0, size=(K, K + E))
+                if kind == "intmatrix":
+                    # whole-number path loss between the users handed over as
+                    # an INTEGER array (a literal np.array([[1, 4], [9, 16]]));
+                    # external-interference path loss stays fractional
+                    new[:, :K] = rs.randint(1, 10, size=(K, K))
+                    user_int = True
+                    self.ctx.label("pathloss_int_dtype")
+            users = new[:, :K].astype(np.int64) if user_int \
+                else new[:, :K].copy()
             if self.ext:
                 self._lib(self.tags(op="pathloss"), self.obj.set_pathloss,
-                          new[:, :K].copy(), new[:, K:].copy())
+                          users, new[:, K:].copy())
             else:
                 self._lib(self.tags(op="pathloss"), self.obj.set_pathloss,
-                          new.copy())
+                          users if user_int else new.copy())
         self.states.append((self.raw, self.PL))
         self.PL = new
         self.events.append(("pl", kind))
@@ -812,7 +839,8 @@ def _ops_st(tier, cls):
                    kind=st.sampled_from(["complex", "complex", "int"]))
     pathloss = fixed(op=st.just("pathloss"),
                      kind=st.sampled_from(["matrix", "matrix", "matrix",
-                                           "matrix", "ones", "none"]),
+                                           "matrix", "intmatrix", "ones",
+                                           "none"]),
                      seed=seeds, noarg=st.booleans())
     noise = fixed(op=st.just("noise_var"),
                   value=st.sampled_from([None, 0.0, 1e-3, 0.5, 4.0]))
@@ -826,8 +854,9 @@ def _ops_st(tier, cls):
     corrupt = fixed(op=st.just("corrupt"),
                     mode=st.sampled_from(["data", "concat"]),
                     nsymb=st.integers(1, 4), seed=seeds)
-    poke = fixed(op=st.just("poke"), i=st.integers(0, 40),
-                 j=st.integers(0, 40))
+    poke = st.one_of(
+        fixed(op=st.just("poke"), i=st.integers(0, 40), j=st.integers(0, 40)),
+        fixed(op=st.just("rejected_init"), layout=_layout_st(tier)))
     mutate = st.one_of(pathloss, pathloss, pathloss, randomize, init_m,
                        noise, filt, poke)
     observe = st.one_of(read, read, read, corrupt)
